@@ -200,6 +200,19 @@ pub fn run(s: &Session) {
         Case { responder: false, small_limits: false, evs: vec![Ev::Include(0), Ev::Connected(0), Ev::Sent(0, MsgR::HsPropose(vec![(13, 764824073)])), Ev::Connected(0)] },
         Case { responder: true, small_limits: false, evs: vec![Ev::Connected(0), Ev::Connected(0), Ev::Recv(0, vec![MsgR::HsPropose(vec![])])] },
     ];
+    let mut directed = directed;
+    // a peer that over-answers a peer-sharing request (more addresses than the discovery high-water mark)
+    for n in [99u16, 100, 101, 150, 256, 600] {
+        directed.push(Case {
+            responder: false,
+            small_limits: false,
+            evs: vec![
+                Ev::Include(0), Ev::Housekeeping, Ev::Connected(0), Ev::Sent(0, MsgR::HsPropose(vec![(13, 764824073)])),
+                Ev::Recv(0, vec![MsgR::HsAccept(13, 764824073)]), Ev::Housekeeping, Ev::Sent(0, MsgR::PsShareRequest(100)),
+                Ev::Recv(0, vec![MsgR::PsSharePeersMany(n)]), Ev::Housekeeping, Ev::Idle, Ev::Housekeeping,
+            ],
+        });
+    }
     s.foreach("directed", directed, false, check);
     for (name, responder, maxlen, small) in [
         ("initiator-short", false, 12usize, false), ("initiator-long", false, 300, false), ("initiator-small-limits", false, 60, true),
